@@ -35,6 +35,7 @@ type Contract struct {
 	File       string
 	Line       int
 	Requires   []Clause
+	Assumes    []Clause // assumed at entry, not an obligation of callers (input well-formedness; reported)
 	Ensures    []Clause
 	Loops      map[int]*LoopSpec
 	Pure       bool // call sites use an uninterpreted function of the arguments (assumption unless body is proved deterministic+frame-free)
@@ -230,6 +231,11 @@ func (db *SpecDB) LoadSpecFile(file, pkgPath string) error {
 				return fmt.Errorf("%s:%d: clause outside func", file, ln)
 			}
 			cur.Requires = append(cur.Requires, mk())
+		case "assumes":
+			if cur == nil {
+				return fmt.Errorf("%s:%d: clause outside func", file, ln)
+			}
+			cur.Assumes = append(cur.Assumes, mk())
 		case "ensures":
 			if cur == nil {
 				return fmt.Errorf("%s:%d: clause outside func", file, ln)
